@@ -46,6 +46,16 @@ def reload_search(tier, variant='three'):
     variant 'slot': two services and a rule on the newcomer; a service that has answered leaves, a differently named one arrives in a
     LATER reload (the only way a vacated slot is reused) - the newcomer must be asked, and nothing its predecessor said may count for it
     (C05/C06/C11).  The observer follows the table in force (World per reload target)."""
+    if variant == 'timeout':
+        # the request timeout itself is reloaded (30 s -> none -> 60 s ...) while a client waits; judged: bookkeeping, clean exit, no memory error
+        services = G['login+drone']
+        rules = rules_for(services)
+        base = alpha.make([1], data=('H',), ends=('D', 'T'), passwords=('x',), replies=('OKA', 'NO'), old_replies=(), malformed=(), ghost_replies=(), pbudget=1, dead_probes=False)
+        names = ('t0.conf', 't30.conf', 't60.conf')
+        alph = lambda st, w: base(st, w) + [('RL', f) for f in names]
+        files = {'t%d.conf' % t: (lambda md_, t=t: e1.conf_text(md_, services=services, timeout=t, rules=rules)) for t in (0, 30, 60)}
+        return dict(label='solo/reloads-timeout/login+drone/t30', services=services, rules=rules, timeout=30, ids=[1], alphabet=alph, flags=e1.F_DUMP | e1.F_STATS | e1.F_EOF,
+                    maxdepth=12 if tier != 'quick' else 8, maxstates=40000 if tier != 'quick' else 6000, keep_refs=True, reload_files=files, merge_check=False, judge_timers=False)
     if variant == 'three':
         services = [('a.svc', 'login'), ('b.svc', 'dronecheck'), ('c.svc', 'login')]
         rules = rules_for(services)
